@@ -185,6 +185,18 @@ def run(ctx):
                 argv = ["-p", "pkg"] + (["-o", "out/gen.go"] if mode == "file" else []) + ["in/" + x for x in seq]
                 runs.append(Run("m%d" % k, files, argv))
                 meta.append(("multi-input", "%s in %s" % (badname, seq), (), seq, mode))
+    # two inputs whose root types get the same name (same base name in two directories): the later one is still walked, its faults still fail the run
+    okitem = json.dumps({"type": "object", "properties": {"a": {"type": "string"}}})
+    for bi, badtext in enumerate([json.dumps({"type": "object", "definitions": {"Tag": {"type": "lenght"}}, "properties": {"b": {"type": "integer"}}}),
+                                  json.dumps({"type": "object", "$defs": {"Tag": {"$ref": "#/$defs/Missing"}}, "properties": {"b": {"type": "integer"}}})]):
+        # (a fault in the later root's own properties goes unnoticed because that root is not generated at all: finding C18-same-root-name-root-not-visited)
+        for seq in (["v1/item.json", "v2/item.json"], ["v2/item.json", "v1/item.json"], ["v1/item.json", "other.json", "v2/item.json"]):
+            for mode in ("file", "stdout"):
+                k += 1
+                files = {"in/v1/item.json": okitem, "in/v2/item.json": badtext, "in/other.json": g2, "out/gen.go": "ORIGINAL\n"}
+                argv = ["-p", "pkg"] + (["-o", "out/gen.go"] if mode == "file" else []) + ["in/" + x for x in seq]
+                runs.append(Run("n%d" % k, files, argv))
+                meta.append(("multi-input", "same root name, bad v2 (%d) in %s" % (bi, seq), (), seq, mode))
     # runs that must succeed completely
     succ = []
     for bi, base in enumerate(bases):
